@@ -114,6 +114,8 @@ type c18Pool struct {
 	// a configured Generator kept as a template: pipelines take a copy by
 	// value and set their own destination and transform on the copy
 	tmpl generate.Generator
+	// rasterisers that long-lived Renderers borrow for one decode and hand back
+	rz *c18RasterPool
 }
 
 // what the pipelines print (DestinationLogger, RasterizerLogger) is part of
@@ -190,7 +192,7 @@ func digestCalls(calls []world.Op, err error) string {
 var c18Rects = []image.Rectangle{image.Rect(0, 0, 32, 32), image.Rect(0, 0, 48, 20), image.Rect(3, 5, 40, 37)}
 
 func c18BuildPool(ctx *Ctx, t *tape.Tape) *c18Pool {
-	p := &c18Pool{}
+	p := &c18Pool{rz: newC18RasterPool(2)}
 	n := t.Range(2, 4)
 	for i := 0; i < n; i++ {
 		var b []byte
@@ -443,7 +445,7 @@ func c18MakeTask(t *tape.Tape, p *c18Pool) c18Task {
 	if logged {
 		suffix += " via DestinationLogger"
 	}
-	switch t.Pick(4, 2, 4, 3, 1, 2, 3, 3, 2, 1, 2, 2, 1, 1, 2, 2, 1, 2, 2) {
+	switch t.Pick(4, 2, 4, 3, 1, 2, 3, 3, 2, 1, 2, 2, 1, 1, 2, 2, 1, 2, 2, 2) {
 	case 0:
 		return c18Task{name: "decode->Renderer->recording rasteriser" + suffix, run: func() string {
 			z := &world.RecRaster{}
@@ -775,6 +777,32 @@ func c18MakeTask(t *tape.Tape, p *c18Pool) c18Task {
 			vb, err := decode.DecodeViewBox(src)
 			return fmt.Sprintf("err=%s %v", errText(err), vb)
 		}}
+	case 19:
+		// a long-lived Renderer that borrows a rasteriser from the shared pool
+		// for each decode and hands it back before it is given the next one;
+		// the first decode is often cut short inside the file (an abandoned
+		// download), so that the Renderer is left in the middle of a path
+		cut := len(src)
+		if t.Chance(2, 3) && len(src) > 30 {
+			cut = 24 + t.Intn(len(src)-24)
+		}
+		src2 := p.files[t.Intn(len(p.files))]
+		rect2 := c18Rects[t.Intn(len(c18Rects))]
+		rz := p.rz
+		return c18Task{name: fmt.Sprintf("long-lived Renderer borrowing pooled rasterisers (first decode reads %d of %d bytes)", cut, len(src)) + suffix, run: func() string {
+			var r render.Renderer
+			who := "the Renderer of a pipeline"
+			l1 := rz.take(who)
+			defer l1.giveBack()
+			r.SetRasterizer(l1, rect)
+			err1 := decode.Decode(wrap(&r), src[:cut])
+			d1 := digestRast(l1.giveBack(), err1)
+			l2 := rz.take(who)
+			defer l2.giveBack()
+			r.SetRasterizer(l2, rect2)
+			err2 := decode.Decode(wrap(&r), src2)
+			return d1 + " then " + digestRast(l2.giveBack(), err2)
+		}}
 	default:
 		vbs := []ivg.ViewBox{ivg.DefaultViewBox, {MinX: 0, MinY: 0, MaxX: 48, MaxY: 24}}
 		vb := vbs[t.Intn(2)]
@@ -927,6 +955,7 @@ func c18RunRace(ctx *Ctx, t *tape.Tape) *report.Violation {
 	stt := sched.RunInvisible(fns, dec, c18Install, 4000000)
 	ctx.Beat()
 	ctx.Fold(fnvAdd(stt.Hash, uint64(stt.Steps)))
+	strays := pool.rz.quiesce()
 	if raceLogSize() > before {
 		summary, lines := raceReport(before)
 		v := viol("C18", "data-race", "the race detector, watching a tape-scheduled interleaving in which it cannot see the hand-overs, reports conflicting unsynchronised accesses by two pipelines: %s", summary)
@@ -939,6 +968,14 @@ func c18RunRace(ctx *Ctx, t *tape.Tape) *report.Violation {
 		}
 		v.Trace = append(v.Trace, "policy: "+policy, fmt.Sprintf("%d statement steps, %d preemptions", stt.Steps, len(stt.Switches)))
 		v.Trace = append(v.Trace, lines...)
+		v.Signature = v.Invariant
+		return v
+	}
+	if len(strays) > 0 {
+		v := viol("C18", "foreign-call", "%d call(s) reached a pooled rasteriser through a pipeline that had handed it back (an object that by then belongs to another pipeline): %s", len(strays), strays[0])
+		for i, tk := range tasks {
+			v.Trace = append(v.Trace, fmt.Sprintf("task %d: %s", i, tk.name))
+		}
 		v.Signature = v.Invariant
 		return v
 	}
@@ -1048,6 +1085,9 @@ func c18Run(ctx *Ctx, t *tape.Tape) *report.Violation {
 				return fail(viol("C18", "result", "task %d (%s) run alone twice gives different results: %s vs %s", i, tasks[i].name, solo[i], res))
 			}
 			ctx.Beat()
+			if strays := pool.rz.quiesce(); len(strays) > 0 {
+				return fail(viol("C18", "foreign-call", "task %d (%s), running alone, made %d call(s) to a rasteriser it had handed back to the shared pool (an object that by then belongs to another pipeline): %s", i, tasks[i].name, len(strays), strays[0]))
+			}
 			if name := checkShallow(); name != "" {
 				return fail(viol("C18", "global-written", "package-level variable %s was written by task %d (%s) running alone", name, i, tasks[i].name))
 			}
@@ -1151,6 +1191,9 @@ func c18Run(ctx *Ctx, t *tape.Tape) *report.Violation {
 	}
 	if err != nil {
 		return fail(viol("C18", err.Error(), "%s", detail), schedTrace...)
+	}
+	if strays := pool.rz.quiesce(); len(strays) > 0 {
+		return fail(viol("C18", "foreign-call", "%d call(s) reached a pooled rasteriser through a pipeline that had handed it back (an object that by then belongs to another pipeline): %s", len(strays), strays[0]), schedTrace...)
 	}
 	if name := checkDeep(); name != "" {
 		return fail(viol("C18", "global-written", "package-level variable %s (or data it points to) was written during the scheduled run", name), schedTrace...)
